@@ -54,6 +54,8 @@ type C10Cell struct {
 	// to the configuration directory; "default" = none configured (the built-in default below the configuration
 	// directory); in the last two the command is started from some other directory.
 	Config string `json:"config,omitempty"`
+	// LegacyPrior: the prior history of the keys is held in records of the old (gob) format, as left by an older release.
+	LegacyPrior bool `json:"legacy_prior,omitempty"`
 }
 
 func (f IFile) render(pubs []string) []byte {
@@ -326,11 +328,15 @@ func c10Run(cell C10Cell) (c10Result, error) {
 	defer w.Close()
 	var prep []SOp
 	for k, p := range []Prior{cell.PriorA, cell.PriorB} {
+		propKind, attKind := "prop", "att"
+		if cell.LegacyPrior {
+			propKind, attKind = "legacy-prop", "legacy-att"
+		}
 		if p.Slot >= 0 {
-			prep = append(prep, SOp{Kind: "prop", Ents: []Ent{{Key: k, Slot: uint64(p.Slot), Root: 1}}})
+			prep = append(prep, SOp{Kind: propKind, Ents: []Ent{{Key: k, Slot: uint64(p.Slot), Root: 1}}})
 		}
 		if p.T >= 0 {
-			prep = append(prep, SOp{Kind: "att", Ents: []Ent{{Key: k, S: uint64(p.S), T: uint64(p.T), Root: 1}}})
+			prep = append(prep, SOp{Kind: attKind, Ents: []Ent{{Key: k, S: uint64(p.S), T: uint64(p.T), Root: 1}}})
 		}
 	}
 	tr, err := w.Exec(prep)
@@ -338,7 +344,7 @@ func c10Run(cell C10Cell) (c10Result, error) {
 		return res, err
 	}
 	for i, o := range tr.Obs {
-		if o != "S" {
+		if o != "S" && !(cell.LegacyPrior && o == "ok") {
 			return res, fmt.Errorf("prior history step %d not signed: %s", i, o)
 		}
 	}
@@ -484,6 +490,18 @@ func C10(tier string) int {
 		for _, f := range seqFiles {
 			for _, g := range seqFiles {
 				cells = append(cells, C10Cell{PriorA: p, PriorB: priorB, Imports: []IFile{f, g}})
+			}
+		}
+	}
+	// The instance's own history is held in records of the old format (an older release wrote them, nothing was signed
+	// since): an import must merge with it like with any other history.
+	for _, p := range priors {
+		if p.Slot < 0 && p.T < 0 {
+			continue
+		}
+		for i, f := range files {
+			if tier == "thorough" || i%3 == 0 {
+				cells = append(cells, C10Cell{PriorA: p, PriorB: priorB, Imports: []IFile{f}, LegacyPrior: true})
 			}
 		}
 	}
